@@ -95,9 +95,9 @@ def run_coverage(chk, pid):
         from .mapper import MapperLab
 
         def pre():
-            if pid == 'C10':
-                # clean_up walks tables whose shape (a present non-huge entry above level 1 points to a table; leaves carry what map_to
-                # stored) is what the mapper operations establish: their rules (C02) are run here, so that whoever changes page-table
+            if pid in ('C09', 'C10'):
+                # C09 / C10 walk tables whose shape (a present non-huge entry above level 1 points to a table the mapper allocated and
+                # zeroed; leaves carry what map_to stored; a failed call leaves no half-made entry) is what the mapper operations establish: their rules (C02) are run here, so that whoever changes page-table
                 # entries has been judged when the census below asks
                 from . import c02
                 saved = (list(chk.trusted), getattr(chk, 'explanation', None))
